@@ -600,8 +600,12 @@ func (u *Unit) evalBinary(st *State, x *ast.BinaryExpr) Value {
 	}
 	t := u.typeOf(x)
 	if x.Op == token.SHL || x.Op == token.SHR {
+		u.curBin = exprText(x)
+		defer func() { u.curBin = "" }()
 		return u.binop(st, x.Op, u.convertConst(l, t), r, t, x.Pos())
 	}
+	u.curBin = exprText(x)
+	defer func() { u.curBin = "" }()
 	return u.binop(st, x.Op, u.convertConst(l, t), u.convertConst(r, t), t, x.Pos())
 }
 
@@ -869,7 +873,7 @@ func (u *Unit) binop(st *State, op token.Token, l, r Value, t types.Type, pos to
 		d := Sub(a, b)
 		if machine && isUnsigned(t) {
 			if u.checks["sub"] {
-				u.oblige(st, "sub@"+fmt.Sprint(u.pos(pos)), "sub", nil, Ge(a, b), pos, "unsigned subtraction does not wrap")
+				u.oblige(st, "sub@"+u.arithSite(pos), "sub", nil, Ge(a, b), pos, "unsigned subtraction does not wrap")
 			}
 			if _, lit := d.intVal(); lit {
 				if v, _ := d.intVal(); v.Sign() >= 0 {
@@ -881,7 +885,7 @@ func (u *Unit) binop(st *State, op token.Token, l, r Value, t types.Type, pos to
 		return scalar(t, noWrap(d, "sub"))
 	case token.QUO, token.REM:
 		if u.checks["div"] {
-			u.oblige(st, "div@"+u.pos(pos), "div", nil, Ne(b, IntLit(0)), pos, "division by zero")
+			u.oblige(st, "div@"+u.arithSite(pos), "div", nil, Ne(b, IntLit(0)), pos, "division by zero")
 		}
 		st.assume(Ne(b, IntLit(0)))
 		nonneg := machine && isUnsigned(t)
@@ -1219,4 +1223,13 @@ func iteParts(t Term) (c, a, b Term, ok bool) {
 		return
 	}
 	return Term{strings.TrimSpace(t.S[i:j]), SBool}, Term{strings.TrimSpace(t.S[j:k]), t.Sort}, Term{strings.TrimSpace(t.S[k:m]), t.Sort}, true
+}
+
+// siteName names an arithmetic obligation by the text of the expression it belongs to (stable under
+// edits elsewhere in the file); the position is the fallback for synthesized operations.
+func (u *Unit) arithSite(pos token.Pos) string {
+	if u.curBin != "" {
+		return u.curBin
+	}
+	return fmt.Sprint(u.pos(pos))
 }
